@@ -611,7 +611,15 @@ def resolve(v, net, env):
         if v == "$dag":
             return xgi.to_encapsulation_dag(copy.deepcopy(net))
         if v == "$net2":
-            return build(env["spec2"])[0]
+            # the second operand carries network attributes of its own (keys the first network does not have): an operator that
+            # merges them into a dict it shares with its first operand (`<<` without its deepcopy) then visibly changes the input
+            N = build(env["spec2"])[0]
+            try:
+                N["__c08_name2__"] = "second"
+                N["__c08_info2__"] = {"l": [3, [4]]}
+            except Exception:  # noqa
+                pass
+            return N
         if v == "$view2":
             return build(env["spec2"])[0].nodes if env.get("domain") != "edge" else build(env["spec2"])[0].edges
         if v == "$stat":
